@@ -31,13 +31,13 @@ RULE = ("arrival sequences of 60-160 events over <= 40 distinct reliable packet 
         "1 s / 3 s with resend_unacked(); subscribers at session and region level, named and wildcard. quick 8 x 60 "
         "sequences, thorough 16 x 3000. distinct_nontrivial = distinct event sequences (by kind and packet id) + distinct (kind, duplicate?, subscriber level) classes")
 ASSUMPTIONS = [
-    "at most 40 distinct reliable ids per run (inside the 1000-entry de-duplication window)",
+    "at most 40 distinct reliable ids per ordinary run; separate long runs send more reliable packets than the de-duplication window holds and then retransmit packets that are still inside it (nothing is demanded for packets that left the window)",
     "the peer's messages are template messages allowed over UDP; the session manager is a stub (no HTTP)",
     "retry budget is the default 10 in half of the runs and 3 in the others",
 ]
 MUST_REACH = {"reliable_arrivals": 1000, "duplicate_arrivals": 200, "unreliable_arrivals": 500, "acks_sent_checked": 1000,
               "sends_completed_by_appended_ack": 50, "sends_completed_by_packetack": 50, "budgets_exhausted": 5,
-              "region_level_duplicates_checked": 100, "reordered_first_arrivals": 100, "session_level_duplicates_checked": 100, "ids_checked_increasing": 1000}
+              "region_level_duplicates_checked": 100, "reordered_first_arrivals": 100, "session_level_duplicates_checked": 100, "ids_checked_increasing": 1000, "long_circuit_retransmissions": 100}
 
 _ser = UDPMessageSerializer()
 _es = Settings()
@@ -308,6 +308,53 @@ def _run_sequence(ctx, rng, seed):
 _CLOCK = {"clock": None}
 
 
+def long_circuit(ctx, rng, seed):
+    """More reliable packets than the de-duplication window holds (1000), then retransmissions of packets that are still
+    inside the window: each must be acknowledged again and dispatched to nobody."""
+    session, region, transport, protocol = make_client()
+    calls = {}
+
+    def mk_sub(level):
+        def sub(msg):
+            if msg.name == "CompletePingCheck":
+                calls[(level, msg.packet_id)] = calls.get((level, msg.packet_id), 0) + 1
+        return sub
+    session.message_handler.subscribe("CompletePingCheck", mk_sub("session"))
+    region.message_handler.subscribe("CompletePingCheck", mk_sub("region"))
+    region.message_handler.subscribe("*", mk_sub("region-wildcard"))
+    window = getattr(region.circuit, "seen_reliable", None)
+    wsize = window.maxlen if window is not None and getattr(window, "maxlen", None) else 1000
+    total = wsize + rng.randint(5, 300)
+    first = rng.choice([1, 2, 50000])
+    for i in range(total):
+        m = Message("CompletePingCheck", Block("PingID", PingID=i & 0xFF), packet_id=first + i, flags=int(PacketFlags.RELIABLE))
+        protocol.datagram_received(bytes(_ser.serialize(m)), SIM)
+    transport.packets = []
+    newest = first + total - 1
+    wit = {"long_circuit_seed": seed, "window": wsize, "packets": total, "first_id": first}
+    for back in sorted(set([0, 1, 2, wsize // 2, wsize - 2, wsize - 1] + [rng.randrange(0, wsize) for _ in range(40)])):
+        pid = newest - back
+        m = Message("CompletePingCheck", Block("PingID", PingID=pid & 0xFF), packet_id=pid,
+                    flags=int(PacketFlags.RELIABLE) | int(PacketFlags.RESENT))
+        transport.packets = []
+        protocol.datagram_received(bytes(_ser.serialize(m)), SIM)
+        ctx.count("long_circuit_retransmissions")
+        ctx.ev()
+        acked = False
+        for (_, data, _) in transport.packets:
+            am = _eager.deserialize(data)
+            if pid in am.acks or (am.name == "PacketAck" and any(b["ID"] == pid for b in am["Packets"])):
+                acked = True
+        if not acked:
+            ctx.violation("reliable-arrival-not-acked", "a retransmitted reliable packet was not acknowledged", dict(wit, packet_id=pid, back=back))
+        for level in ("session", "region", "region-wildcard"):
+            if calls.get((level, pid), 0) != 1:
+                ctx.violation("reliable-dispatched-again:" + level + ":long-circuit", "a retransmission of a packet still inside the "
+                              "de-duplication window was dispatched again", dict(wit, packet_id=pid, back=back, level=level,
+                                                                               calls=calls.get((level, pid), 0)))
+    ctx.nontrivial(("long", total, first))
+
+
 def _advance(step):
     _CLOCK["clock"].advance(step)
 
@@ -353,6 +400,9 @@ def run(ctx):
         if ctx.out_of_time():
             break
         run_sequence_with_clock(ctx, ctx.seed * 1_000_003 + ctx.shard * 10007 + i)
+    for i in range(ctx.pick(1, 12)):
+        sd = ctx.seed * 7919 + ctx.shard * 101 + i
+        long_circuit(ctx, random.Random(sd), sd)
 
 
 def replay(ctx, w):
@@ -360,5 +410,7 @@ def replay(ctx, w):
         asyncio.get_event_loop_policy().get_event_loop()
     except Exception:
         asyncio.set_event_loop(asyncio.new_event_loop())
+    if "long_circuit_seed" in w:
+        long_circuit(ctx, random.Random(w["long_circuit_seed"]), w["long_circuit_seed"])
     if "sequence_seed" in w:
         run_sequence_with_clock(ctx, w["sequence_seed"])
